@@ -407,6 +407,12 @@ func (g *orderGate) arrive() {
 	<-ch
 }
 
+func (g *orderGate) arrived() int {
+	g.mu.Lock()
+	defer g.mu.Unlock()
+	return len(g.waiting)
+}
+
 func (g *orderGate) finished() {
 	g.mu.Lock()
 	f := g.fin
@@ -476,7 +482,7 @@ type BurstCase struct {
 
 func genBurst(t *rapid.T) BurstCase {
 	c := BurstCase{Limit: rapid.SampledFrom([]int{1, 2, 3, 8, 64}).Draw(t, "limit"), Datagram: rapid.Bool().Draw(t, "datagram")}
-	c.Phase = rapid.SampledFrom([]string{"dialing", "dialing", "established", "dialing-late"}).Draw(t, "phase")
+	c.Phase = rapid.SampledFrom([]string{"dialing", "dialing", "established", "dialing-late", "handover-cancel"}).Draw(t, "phase")
 	switch rapid.IntRange(0, 3).Draw(t, "nk") {
 	case 0:
 		c.N = c.Limit
@@ -493,6 +499,12 @@ func genBurst(t *rapid.T) BurstCase {
 		// exactly a full queue of early callers plus one late caller that arrives while they re-reserve
 		c.N = c.Limit
 		c.SecondOK = true
+	}
+	if c.Phase == "handover-cancel" {
+		// a full queue of early callers; some of them are cancelled after the dial finished, at the moment they
+		// re-reserve on the dialled connection
+		c.N = c.Limit
+		c.CancelK = rapid.IntRange(1, c.N).Draw(t, "cancelAtHandover")
 	}
 	if c.Phase == "dialing" {
 		if rapid.IntRange(0, 4).Draw(t, "dialFail") == 0 {
@@ -519,10 +531,10 @@ func runBurst(c BurstCase, ctx *hx.Ctx) *hx.Failure {
 	openGate := func() { gateOnce.Do(func() { close(gate) }) }
 	defer openGate()
 	og := &orderGate{}
-	if c.Phase == "dialing" || c.Phase == "dialing-late" {
+	if c.Phase == "dialing" || c.Phase == "dialing-late" || c.Phase == "handover-cancel" {
 		env.DialGate = gate
 	}
-	if c.Phase == "dialing-late" {
+	if c.Phase == "dialing-late" || c.Phase == "handover-cancel" {
 		og.active = true
 	}
 	env.OnDial = func(cn int, fc *fakenet.Conn) error {
@@ -591,6 +603,41 @@ func runBurst(c BurstCase, ctx *hx.Ctx) *hx.Failure {
 		time.Sleep(2 * time.Millisecond)
 		go burstCall(lcx, eng, late, 9999)
 		og.drain(c.N+1, 30*time.Millisecond)
+	}
+	if c.Phase == "handover-cancel" {
+		deadline := time.Now().Add(5 * time.Second)
+		for time.Now().Before(deadline) && len(quiesce.With("lazyDnsConnEarlyReservedExchanger).ExchangeReserved")) < c.N {
+			time.Sleep(200 * time.Microsecond)
+		}
+		openGate()
+		// every early caller has seen the dial finish and is held just before it reserves on the dialled connection
+		deadline = time.Now().Add(5 * time.Second)
+		for time.Now().Before(deadline) && og.arrived() < c.N {
+			time.Sleep(200 * time.Microsecond)
+		}
+		if og.arrived() < c.N {
+			og.drain(c.N, 30*time.Millisecond)
+			for _, cl := range calls {
+				cl.cancel()
+			}
+			ctx.Class("inconclusive:early-callers-did-not-reach-the-handover")
+			return nil
+		}
+		for i := 0; i < c.CancelK; i++ {
+			calls[i].cancel()
+		}
+		og.drain(c.N, 30*time.Millisecond)
+		if !allReturned(10*time.Second, all[:c.CancelK]) {
+			for _, cl := range calls {
+				cl.cancel()
+			}
+			ctx.Class("inconclusive:cancelled-callers-slow")
+			return nil
+		}
+		for i := 0; i < c.CancelK; i++ {
+			w.ended(calls[i].name) // cancelled: whether or not it reached the wire, it no longer occupies the connection
+		}
+		live = all[c.CancelK:]
 	}
 	if c.Phase == "dialing" {
 		// wait until every caller that fits is queued on the dialing connection (parked in the early exchanger),
@@ -709,7 +756,7 @@ func runBurst(c BurstCase, ctx *hx.Ctx) *hx.Failure {
 		if calls[i].err != nil {
 			if c.N <= c.Limit || c.Refill > 0 {
 				sig := "C09/refused-below-limit"
-				if c.Phase == "dialing" || c.Phase == "dialing-late" {
+				if c.Phase == "dialing" || c.Phase == "dialing-late" || c.Phase == "handover-cancel" {
 					sig = "C09/early-query-refused-after-dial"
 				}
 				return hx.Failf(sig, "limit %d (queue limit while dialing %d), phase %s: burst of %d queries (%d cancelled before the dial finished): query %d failed with: %v", c.Limit, c.Limit, c.Phase, c.N, c.CancelK, i, calls[i].err)
